@@ -49,8 +49,10 @@ def make_case(rng, Pstr, n, nticks, bid=None, grid_periods=None):
         sched = "active" if rng.random() < 0.85 else "inactive"
         taskers.append({"name": "t%d" % i, "period": p, "order": order, "sched": sched})
     drv_order = rng.choice(["front", "mid", "back"])
+    # start time of the skedder (Skedder(stamp=t0)): the statement's t0; every ideal time is t0 + k*p
+    t0 = rng.choice(["0", "0", "2.0", "7.5", "0.375"])
     case = {"P": Pstr, "taskers": taskers, "nticks": nticks, "drv_order": drv_order, "bid": bid,
-            "drv_pos": rng.randint(0, n)}
+            "drv_pos": rng.randint(0, n), "t0": t0}
     return case
 
 
@@ -100,8 +102,12 @@ def check_case(ctx, case):
         allp.append(Fraction(case["bid"]["newp"]))
     # a stopped-by-bid tasker only sees the stop at its next due tick: cap well after that
     cap = case["nticks"] + 12 + 2 * int(ceil(max(allp) / Pf))
-    res = runner.run_text(text, period=float(Pf), maxticks=cap)
-    key = [case["P"], [(t["period"], t["order"], t["sched"]) for t in case["taskers"]], case["drv_order"], case["drv_pos"], case["bid"]]
+    res = runner.run_text(text, period=float(Pf), maxticks=cap, stamp=float(case.get("t0", "0")))
+    if float(case.get("t0", "0")):
+        ctx.hit("nonzero_start_time_cases")
+        ctx.check(bool(res.ticks) and res.ticks[0]["stamp"] == float(case["t0"]), "start-stamp-not-t0",
+                  "the store was not initialised with the skedder's start stamp", lambda: {"case": case})
+    key = [case["P"], case.get("t0"), [(t["period"], t["order"], t["sched"]) for t in case["taskers"]], case["drv_order"], case["drv_pos"], case["bid"]]
     if not res.built:
         ctx.inconclusive_case("generated program did not build: %r\n%s" % (res.build_error, text))
         return
@@ -156,6 +162,7 @@ def check_case(ctx, case):
         # (iii) k-th run on the ideal tick
         due = Fraction(0)
         prev = None
+        inexact = not (dyadic(Pf) and dyadic(period))
         ended_aborted = bool(rs) and rs[-1].get("status") == "aborted"
         for k, s in enumerate(rs):
             need = int(ceil(due / Pf)) if due > 0 else 0
@@ -163,9 +170,10 @@ def check_case(ctx, case):
             got = s["tick"]
             ctx.hit("runs_checked")
             if got != exp:
-                late = (got == exp + 1 and due == exp * Pf and not (dyadic(Pf) and dyadic(period)))
-                if bid and bid["kind"] == "period" and bid["who"] == name and not dyadic(Fraction(bid["newp"])):
-                    late = late or (got == exp + 1 and due == exp * Pf)
+                # float accumulation can only matter when some number that went into the accumulated due time or
+                # tick time is not binary-exact: the tick period, or any period this tasker has been rescheduled
+                # with so far (a period changed by a bid leaves the earlier inexact sums in `retime`)
+                late = (got == exp + 1 and due == exp * Pf and inexact)
                 key_ = ("decimal-period-late-by-one-tick/exact-coincidence" if late
                         else "run-%s-than-ideal" % ("later" if got > exp else "earlier"))
                 ctx.fail(key_, "%s (period %s, tick %s): run #%d at tick %d, ideal tick %d (due %s)" % (
@@ -178,6 +186,7 @@ def check_case(ctx, case):
             if (bid and bid["kind"] == "period" and bid["who"] == name and bid_seq is not None
                     and s.get("seq_end", s["seq"]) > bid_seq):
                 period = Fraction(bid["newp"])
+            inexact = inexact or not dyadic(period)
             due += period
             prev = got
         if not rs:
@@ -193,7 +202,7 @@ def check_case(ctx, case):
         if period and (Fraction(t["period"]) / Pf).denominator != 1:
             ctx.hit("non_multiple_periods")
     ctx.case(key, nontrivial=ntask_ok >= 2,
-             sample={"P": case["P"], "taskers": case["taskers"], "bid": bid,
+             sample={"P": case["P"], "t0": case.get("t0"), "taskers": case["taskers"], "bid": bid,
                      "run_ticks": {n: [x["tick"] for x in r][:12] for n, r in runs.items()}})
 
 
@@ -247,3 +256,4 @@ def run(ctx):
     ctx.floor("non_multiple_periods", 1)
     ctx.floor("bids_observed", 1)
     ctx.floor("aborted_runs", 1)
+    ctx.floor("nonzero_start_time_cases", 20)
